@@ -35,7 +35,7 @@ def pools(tier):
         return {"full": full, "core": full, "core4": core, "src": calls_src, "srcs": list(range(1, A.n_sources() + 1)), "maxlen": 4}
     # trees for the syntax functions: the pool tree, unicode, errors and missing nodes, empty, comments, blank, deep, mixed
     names = A.source_names()
-    want = [i + 1 for i, nm in enumerate(names) if any(k in nm for k in ("s02_", "s09_", "s11_", "s12_", "s15_", "s17a_", "s17c_", "s17d_", "s17e_", "s17f_", "s17g_", "s17h_", "s17i_"))]
+    want = [i + 1 for i, nm in enumerate(names) if any(k in nm for k in ("s02_", "s09_", "s11_", "s12_", "s15_", "s17a_", "s17c_", "s17d_", "s17e_", "s17f_", "s17g_", "s17h_", "s17i_", "s17k_"))]
     return {"full": full, "core": core[:13] + core[14:], "core4": core4, "src": calls_src, "srcs": sorted(set([3, calls_src] + want)), "maxlen": 3}
 
 
